@@ -131,7 +131,11 @@ func init() {
 			copy(m.GmmHeader.Octet[:], hdr)
 			reflect.ValueOf(m.GmmMessage).Elem().FieldByName(mi.name).Set(mv)
 		}
-		return okHex(m.PlainNasEncode())
+		b, err := m.PlainNasEncode()
+		if err == nil {
+			retainBytes(b)
+		}
+		return okHex(b, err)
 	})
 	registerOp("nmpdec", func(a []string) string {
 		b := aHex(a[0])
